@@ -158,5 +158,43 @@ theorem ssiMsHead_split (D : List (Mat K)) (R : List (List Nat)) (y0 : Mat K) (r
       congr 2
       omega
 
+/-! ## 4. the split as a value, the roving DOF lists -/
+
+/-- what `MultiSetup_PreGER.data` / `gen.pre_multisetup` holds for the datasets `D` and reference lists `R`
+    (`[]` where the code raises) -/
+def splitOf {K : Type} (D : List (Mat K)) (R : List (List Nat)) : List (Setup K) :=
+  match preMultisetupRec D R with
+  | .ok Y => Y
+  | .error _ => []
+
+theorem splitOf_eq {K : Type} (D : List (Mat K)) (R : List (List Nat)) (h : ValidRefs D R) :
+    splitOf D R = List.zipWith splitAt D R := by
+  simp only [splitOf, preMultisetupRec_ok D R h]
+
+/-- the DOFs of the roving blocks: setup `i`'s roving channels (ascending channel order) mapped to the DOFs they
+    measure -/
+def movDofs {K : Type} (D : List (Mat K)) (R : List (List Nat)) (dof : Nat → Nat → Nat) : List (List Nat) :=
+  (List.range D.length).map fun i => (rovingCols ((D.map Mat.c).getD i 0) (R.getD i [])).map (dof i)
+
+theorem movDofs_get {K : Type} (D : List (Mat K)) (R : List (List Nat)) (dof : Nat → Nat → Nat) (i : Nat) (y : Mat K)
+    (r : List Nat) (hy : D[i]? = some y) (hr : R[i]? = some r) :
+    (movDofs D R dof)[i]? = some ((rovingCols y.c r).map (dof i)) := by
+  have hi : i < D.length := (List.getElem?_eq_some_iff.mp hy).1
+  simp only [movDofs, List.getElem?_map, List.getElem?_range hi, Option.map_some, List.getD_eq_getElem?_getD,
+    hy, hr, Option.getD_some]
+
+theorem movDofs_get_inv {K : Type} (D : List (Mat K)) (R : List (List Nat)) (dof : Nat → Nat → Nat) (hlen : R.length = D.length)
+    (i : Nat) (mi : List Nat) (h : (movDofs D R dof)[i]? = some mi) :
+    ∃ y r, D[i]? = some y ∧ R[i]? = some r ∧ mi = (rovingCols y.c r).map (dof i) := by
+  have hi : i < D.length := by
+    have := (List.getElem?_eq_some_iff.mp h).1
+    simpa [movDofs] using this
+  have hy : D[i]? = some D[i] := List.getElem?_eq_getElem hi
+  have hr : R[i]? = some (R[i]'(by omega)) := List.getElem?_eq_getElem (by omega)
+  refine ⟨_, _, hy, hr, ?_⟩
+  rw [movDofs_get D R dof i _ _ hy hr] at h
+  exact (Option.some.inj h).symm
+
+
 end rec
 end PV.MsGather
